@@ -504,7 +504,18 @@ fn fresh(h: &LineHeader) -> MLineRow {
 /// Run the state machine over program bytes. `well_formed`: a set_address that goes backwards or into the
 /// tombstone range ends the comparison (Open) instead of following gimli's documented suppression policy.
 pub fn run_line(h: &LineHeader, big: bool, prog: &[u8]) -> LineRun {
+    run_line_opts(h, big, prog, false)
+}
+
+/// `policy`: follow gimli's documented tombstone policy instead of ending the comparison: a DW_LNE_set_address that goes
+/// backwards or into the tombstone range (>= -2) freezes address and op_index and suppresses rows until the next
+/// acceptable DW_LNE_set_address or the end of the sequence; all other registers keep evolving as the state machine
+/// says (including the resets after every row, suppressed or not); the end_sequence row is still delivered when rows
+/// of that sequence have been delivered before.
+pub fn run_line_opts(h: &LineHeader, big: bool, prog: &[u8], policy: bool) -> LineRun {
     let m = mask(h.address_size);
+    let mut tomb = false;
+    let mut has_rows = false;
     let mut run = LineRun { rows: Vec::new(), end: LineEnd::Done, defined_files: Vec::new(), ops: Vec::new(), seq_ends: Vec::new(), used_tombstone: false };
     let mut r = fresh(h);
     let mut pos = 0usize;
@@ -524,7 +535,11 @@ pub fn run_line(h: &LineHeader, big: bool, prog: &[u8]) -> LineRun {
         run.ops.push(op.clone());
         let mut emit = false;
         // operation advance
+        let tomb_now = tomb;
         let mut advance = |r: &mut MLineRow, adv: u64| -> Result<(), LineEnd> {
+            if tomb_now {
+                return Ok(());
+            }
             let (addr_adv, new_op): (u128, u64) = if h.max_ops == 1 {
                 (h.min_inst_len as u128 * adv as u128, 0)
             } else {
@@ -569,6 +584,7 @@ pub fn run_line(h: &LineHeader, big: bool, prog: &[u8]) -> LineRun {
                     let adj = 255 - h.opcode_base;
                     advance(&mut r, (adj / h.line_range) as u64)?;
                 }
+                LOp::FixedAdvancePc(_) if tomb_now => {}
                 LOp::FixedAdvancePc(v) => {
                     let na = r.address as u128 + *v as u128;
                     if na > m as u128 {
@@ -588,9 +604,15 @@ pub fn run_line(h: &LineHeader, big: bool, prog: &[u8]) -> LineRun {
                 LOp::SetAddress(a, _) => {
                     let a = *a & m;
                     if a < r.address || a >= m - 1 {
+                        if policy {
+                            tomb = true;
+                            run.used_tombstone = true;
+                            return Ok(());
+                        }
                         // gimli's documented policy suppresses rows until the next set_address; not DWARF semantics
                         return Err(LineEnd::Open("set_address backwards or in the tombstone range"));
                     }
+                    tomb = false;
                     r.address = a;
                     r.op_index = 0;
                 }
@@ -607,9 +629,14 @@ pub fn run_line(h: &LineHeader, big: bool, prog: &[u8]) -> LineRun {
             return run;
         }
         if emit {
-            run.rows.push(r.clone());
+            if !(tomb && !(r.end_sequence && has_rows)) {
+                run.rows.push(r.clone());
+                has_rows = !r.end_sequence;
+            }
             if r.end_sequence {
                 r = fresh(h);
+                tomb = false;
+                has_rows = false;
                 run.seq_ends.push(pos);
             } else {
                 r.discriminator = 0;
